@@ -24,8 +24,8 @@ KIND = {  # coordinate kind of every axis
 }
 
 
-def axis_edges(rng, kind, full):
-    n = rng.randint(1, 4)
+def axis_edges(rng, kind, full, n=None):
+    n = n or rng.randint(1, 4)
     if kind == "r":
         e = sorted({0.0 if (full or rng.random() < 0.5) else rng.uniform(0.1, 1)} | {rng.uniform(0.2, 5) for _ in range(n)})
     elif kind == "phi":
@@ -71,20 +71,262 @@ def measure_py(klass, cell):
     return m
 
 
+# ---------------------------------------------------------------------------------------------------------------------
+# stream "derived": the same clauses on DERIVED histograms and on histograms WITH A HISTORY of reads
+# ---------------------------------------------------------------------------------------------------------------------
+PLAIN = ("Histogram1D", "Histogram2D", "HistogramND")
+# every geometry observable the property names; a read is {"what": <name>, "axis": <int>}
+READS = ["sizes", "densities", "total", "widths", "left", "right", "centers", "bins", "mesh_widths", "mesh_centers", "cumulative"]
+# derivations by family (the family is drawn first, so that the rare kinds get their share)
+FAMILIES = {
+    "axes": ["T"],                                                             # same contents, axes re-arranged (Histogram2D)
+    "same": ["copy", "mul", "div", "imul", "idiv", "add", "iadd", "normalize"],  # same bins, other contents
+    "rebin": ["merge", "projection", "slice", "select"],                         # other bins
+    "grow": ["fill"],                                                          # adaptive growth in place
+}
+
+
+def fl(x):
+    """observed number (rational string / None for NaN / 'inf') -> float"""
+    if x is None:
+        return math.nan
+    if x in ("inf", "-inf"):
+        return math.inf if x == "inf" else -math.inf
+    a, _, b = x.partition("/")          # "n" or "n/d": int / int is correctly rounded, the same value as float(Fraction(x))
+    return int(a) / int(b) if b else float(int(a))
+
+
+def do_read(h, rd):
+    """read one geometry observable of the histogram (the value is thrown away: only the history matters)"""
+    w, a = rd["what"], rd.get("axis", 0)
+    if h.ndim == 1:
+        name = {"sizes": "bin_sizes", "densities": "densities", "total": "total_width", "widths": "bin_widths",
+                "left": "bin_left_edges", "right": "bin_right_edges", "centers": "bin_centers", "bins": "bins",
+                "mesh_widths": "bin_widths", "mesh_centers": "bin_centers", "cumulative": "cumulative_frequencies"}[w]
+        return getattr(h, name)
+    a = a % h.ndim
+    if w in ("sizes", "densities", "bins"):
+        return getattr(h, {"sizes": "bin_sizes", "densities": "densities", "bins": "bins"}[w])
+    if w in ("total", "cumulative"):
+        return h.total_size
+    if w == "mesh_widths":
+        return h.get_bin_widths()
+    if w == "mesh_centers":
+        return h.get_bin_centers()
+    return {"widths": h.get_bin_widths, "left": h.get_bin_left_edges, "right": h.get_bin_right_edges, "centers": h.get_bin_centers}[w](a)
+
+
+def observe(h):
+    """every observable of the property, read from the histogram as it is now; `bins` are its own current bins"""
+    nd = h.ndim
+    own = [np.asarray(h.bins).reshape(-1, 2)] if nd == 1 else [np.asarray(b).reshape(-1, 2) for b in h.bins]
+    out = {"class": type(h).__name__, "bins": [[[nrs(l), nrs(r)] for l, r in b] for b in own],
+           "freq_shape": list(np.asarray(h.frequencies).shape), "dtype": str(np.asarray(h.frequencies).dtype)}
+    if any(len(b) == 0 for b in own):
+        out["empty"] = True
+        return out
+    out.update({"bin_sizes": [nrs(x) for x in np.asarray(h.bin_sizes).ravel()],
+                "densities": [nrs(x) for x in np.asarray(h.densities).ravel()],
+                "freq": [nrs(x) for x in np.asarray(h.frequencies).ravel()],
+                "total": nrs(h.total), "shape_sizes": list(np.asarray(h.bin_sizes).shape)})
+    if nd == 1:
+        out["total_width"] = nrs(h.total_width)
+        out["left"] = [nrs(x) for x in h.bin_left_edges]
+        out["right"] = [nrs(x) for x in h.bin_right_edges]
+        out["centers"] = [nrs(x) for x in h.bin_centers]
+        out["widths"] = [nrs(x) for x in h.bin_widths]
+        out["cumulative"] = [nrs(x) for x in h.cumulative_frequencies]
+        out["min_edge"], out["max_edge"] = nrs(h.min_edge), nrs(h.max_edge)
+    else:
+        out["total_size"] = nrs(h.total_size)
+        out["left"] = [[nrs(x) for x in h.get_bin_left_edges(i)] for i in range(nd)]
+        out["right"] = [[nrs(x) for x in h.get_bin_right_edges(i)] for i in range(nd)]
+        out["centers"] = [[nrs(x) for x in h.get_bin_centers(i)] for i in range(nd)]
+        out["widths"] = [[nrs(x) for x in h.get_bin_widths(i)] for i in range(nd)]
+        mesh = h.get_bin_centers()
+        out["mesh_centers_shape"] = [list(np.asarray(m).shape) for m in mesh]
+        out["mesh_centers00"] = [nrs(np.asarray(m).ravel()[0]) for m in mesh]
+        wm = h.get_bin_widths()
+        out["mesh_widths_last"] = [nrs(np.asarray(m).ravel()[-1]) for m in wm]
+    # additivity under merging: merge_bins(2) along every axis, on a copy
+    out["merged"] = []
+    for a in range(nd):
+        if len(own[a]) < 2:
+            continue
+        try:
+            m = h.merge_bins(2, axis=a) if nd > 1 else h.merge_bins(2)
+        except Exception as e:
+            out["merged"].append({"axis": a, "ret": "REFUSED", "why": f"{type(e).__name__}: {e}"[:120]})
+            continue
+        mb = [np.asarray(m.bins).reshape(-1, 2)] if nd == 1 else [np.asarray(b).reshape(-1, 2) for b in m.bins]
+        out["merged"].append({"axis": a, "ret": "ok", "bins": [[nrs(l), nrs(r)] for l, r in mb[a]],
+                              "sizes": [nrs(x) for x in np.asarray(m.bin_sizes).ravel()],
+                              "shape": list(np.asarray(m.bin_sizes).shape),
+                              "total_measure": nrs(m.total_width if nd == 1 else m.total_size)})
+    return out
+
+
+def build(case):
+    """the source histogram of a case, through the public constructors"""
+    from physt import special_histograms as sp
+    from physt.binnings import FixedWidthBinning
+    from physt.histogram1d import Histogram1D
+    from physt.histogram_nd import Histogram2D, HistogramND
+    klass = {"Histogram1D": Histogram1D, "Histogram2D": Histogram2D, "HistogramND": HistogramND}.get(case["class"]) or getattr(sp, case["class"])
+    pairs = [np.array([[float(Fraction(l)), float(Fraction(r))] for l, r in ax]) for ax in case["axes"]]
+    for a, spec in enumerate(case.get("adaptive") or []):
+        if spec:     # a fixed-width binning that grows when a value outside is filled; its bins are those listed in `axes`
+            pairs[a] = FixedWidthBinning(bin_width=float(Fraction(spec["w"])), bin_count=len(case["axes"][a]),
+                                         min=float(Fraction(spec["min"])), adaptive=True)
+    f = np.array([float(Fraction(v)) for v in case["freq"]]).astype(case["dtype"]).reshape(case["shape"])
+    if len(pairs) == 1:
+        return klass(pairs[0], f)
+    if case["class"] == "HistogramND":
+        return klass(pairs, f, dimension=len(pairs))
+    return klass(pairs, f)
+
+
+def apply_op(h, op):
+    """one derivation through the public API; returns the derived histogram (the same object for the in-place kinds).
+    Positions are reduced modulo the current shape, so every op is meaningful whatever the earlier ops did."""
+    from physt.special_histograms import TransformedHistogramMixin
+    kind = op["op"]
+    nd = h.ndim
+    if kind == "T":
+        if not hasattr(h, "T"):
+            return None
+        return h.T
+    if kind == "copy":
+        return h.copy()
+    if kind in ("mul", "div", "imul", "idiv"):
+        k = float(Fraction(op["k"]))
+        if kind == "mul":
+            return h * k if not op.get("int") else h * int(k)
+        if kind == "div":
+            return h / k
+        if kind == "imul":
+            h *= (int(k) if op.get("int") else k)
+            return h
+        h /= k
+        return h
+    if kind == "add":
+        return h + h.copy()
+    if kind == "iadd":
+        h += h.copy()
+        return h
+    if kind == "normalize":
+        return h.normalize(inplace=bool(op.get("inplace")), percent=bool(op.get("percent")))
+    if kind == "merge":
+        kw = {"inplace": bool(op.get("inplace"))}
+        if nd > 1 and op.get("axis") is not None:
+            kw["axis"] = op["axis"] % nd
+        r = h.merge_bins(op["amount"], **kw)
+        return h if op.get("inplace") else r
+    if kind == "projection":
+        if nd == 1:
+            return None
+        axes = sorted({a % nd for a in op["axes"]})
+        if len(axes) == nd:
+            axes = axes[:-1]
+        return h.projection(*axes)
+    if kind in ("slice", "select"):
+        shape = list(h.shape)
+
+        def sl(spec, n):
+            if spec[0] == "s":
+                start = spec[1] % n
+                stop = start + 1 + spec[2] % (n - start)
+                return slice(start if (start or spec[3]) else None, stop if (stop < n or spec[3]) else None)
+            if spec[0] == "i":
+                return int(spec[1] % n)
+            return sorted({int(x % n) for x in spec[1]})
+        if kind == "select":
+            a = op["axis"] % nd
+            ix = sl(op["index"], shape[a])
+            if nd == 1 and isinstance(ix, int):
+                return None                      # one bin of a 1-D histogram is a pair, not a histogram
+            return h.select(a, ix)
+        idx = [sl(sp_, shape[a]) for a, sp_ in zip(range(nd), op["index"])]
+        if nd == 1:
+            return None if isinstance(idx[0], int) else h[idx[0]]
+        if all(isinstance(i, int) for i in idx) and len(idx) == nd:
+            return None
+        return h[tuple(idx)]
+    if kind == "fill":
+        kw = {"transformed": True} if isinstance(h, TransformedHistogramMixin) else {}
+        pts = [[float(Fraction(x)) for x in p] for p in op["values"]]      # resolved by resolve_points
+        if op.get("n"):
+            h.fill_n([p[0] for p in pts] if nd == 1 else pts, **kw)
+        else:
+            for p in pts:
+                h.fill(p[0] if nd == 1 else p, **kw)
+        return h
+    raise ValueError(kind)
+
+
+def resolve_points(h, values):
+    """fill positions given relative to the current bins of every axis (below the first bin / above the last by j + 1/2 bin
+    widths, or the centre of bin j) -> coordinates"""
+    nd = h.ndim
+    own = [np.asarray(h.bins).reshape(-1, 2)] if nd == 1 else [np.asarray(b).reshape(-1, 2) for b in h.bins]
+    pts = []
+    for p in values:
+        pt = []
+        for a in range(nd):
+            where, j = p[a % len(p)]
+            b = own[a]
+            if len(b) == 0:
+                v = 0.0
+            elif where == "lo":
+                v = b[0][0] - (j + 0.5) * (b[0][1] - b[0][0])
+            elif where == "hi":
+                v = b[-1][1] + (j + 0.5) * (b[-1][1] - b[-1][0])
+            else:
+                l, r = b[j % len(b)]
+                v = (l + r) / 2
+            pt.append(rs(float(v)))
+        pts.append(pt)
+    return pts
+
+
+def is_full(klass, axes):
+    """the bins cover the whole angular range(s) and the radius starts at 0, without gaps (from the current bins)"""
+    if klass not in KIND or len(KIND[klass]) != len(axes):
+        return False
+    for kd, ax in zip(KIND[klass], axes):
+        if any(ax[i][1] != ax[i + 1][0] for i in range(len(ax) - 1)):
+            return False
+        if kd == "r" and ax[0][0] != 0.0:
+            return False
+        if kd == "phi" and (ax[0][0] != 0.0 or ax[-1][1] != 2 * math.pi):
+            return False
+        if kd == "theta" and (ax[0][0] != 0.0 or ax[-1][1] != math.pi):
+            return False
+    return True
+
+
 class C16:
     ID = "C16"
-    N_QUICK = 300
-    N_THOROUGH = 6000
+    N_QUICK = 400
+    N_THOROUGH = 8000
     N_SEARCH = 300
     RULE = ("a histogram of every class (1-D, 2-D, ND up to 4 axes, radial, azimuthal, polar, spherical, sphere surface, "
             "cylindrical, cylinder surface) with irregular (also gapped, for plain classes also tiny-gap) bins — full angular "
             "ranges in a share of the cases — and arbitrary contents of every dtype (int16 contents whose running sum "
             "exceeds the type); observed: bin_sizes, densities, total_size / total_width, edges / centres / widths (per axis and "
-            "mesh forms), cumulative_frequencies. non-trivial = more than one bin and non-zero contents; distinct = case hash")
+            "mesh forms), cumulative_frequencies. Every 4th case (stream:derived) evaluates the same clauses on a DERIVED "
+            "histogram with a HISTORY of reads: a source of any class (square and non-square shapes, different irregular axes, "
+            "a share with adaptive fixed-width axes), an arbitrary subset of the geometry observables read on it, then a chain of "
+            "1-3 derivations drawn by family (T; copy, * / scalar, + , normalize, also in place; merge_bins on any / all axes, "
+            "projection, slicing, select; adaptive growth by fill / fill_n), more reads in between; every clause is evaluated on "
+            "the result (and on a share of the intermediate results) from its OWN current bins and class. "
+            "non-trivial = more than one bin and non-zero contents (derived: at least one derivation succeeded); distinct = case hash")
     ASSUMPTIONS = ["libm cos is accurate to a few ulps: measures are compared with relative tolerance 1e-12"]
     EXTRA_TRUST = ["the theorems are over the real numbers (Mathlib); the float evaluation of the same formulas is compared with tolerance"]
 
     def gen_case(self, rng, k, tier):
+        if k % 4 == 1:
+            return self.gen_derived(rng)
         klass = rng.choice(list(CLASSES))
         d = CLASSES[klass] or rng.choice([3, 4])
         full = rng.random() < 0.3
@@ -116,61 +358,178 @@ class C16:
         return {"kind": "measure", "class": klass, "axes": [[[rs(l), rs(r)] for l, r in p] for p in pairs], "shape": shape,
                 "freq": [rs(v) for v in vals], "dtype": dt, "full": full, "tags": tags}
 
-    def run_impl(self, case):
-        import physt
-        from physt import special_histograms as sp
-        from physt.histogram1d import Histogram1D
-        from physt.histogram_nd import Histogram2D, HistogramND
-        klass = {"Histogram1D": Histogram1D, "Histogram2D": Histogram2D, "HistogramND": HistogramND}.get(case["class"]) or getattr(sp, case["class"])
-        pairs = [np.array([[float(Fraction(l)), float(Fraction(r))] for l, r in ax]) for ax in case["axes"]]
-        f = np.array([float(Fraction(v)) for v in case["freq"]]).astype(case["dtype"]).reshape(case["shape"])
-        if len(pairs) == 1:
-            h = klass(pairs[0], f)
-        elif case["class"] == "HistogramND":
-            h = klass(pairs, f, dimension=len(pairs))
-        else:
-            h = klass(pairs, f)
-        out = {"bin_sizes": [nrs(x) for x in np.asarray(h.bin_sizes).ravel()],
-               "densities": [nrs(x) for x in np.asarray(h.densities).ravel()],
-               "freq": [nrs(x) for x in np.asarray(h.frequencies).ravel()],
-               "total": nrs(h.total), "shape_sizes": list(np.asarray(h.bin_sizes).shape)}
-        if len(pairs) == 1:
-            out["total_width"] = nrs(h.total_width)
-            out["left"] = [nrs(x) for x in h.bin_left_edges]
-            out["right"] = [nrs(x) for x in h.bin_right_edges]
-            out["centers"] = [nrs(x) for x in h.bin_centers]
-            out["widths"] = [nrs(x) for x in h.bin_widths]
-            out["cumulative"] = [nrs(x) for x in h.cumulative_frequencies]
-            out["min_edge"], out["max_edge"] = nrs(h.min_edge), nrs(h.max_edge)
-        else:
-            out["total_size"] = nrs(h.total_size)
-            out["left"] = [[nrs(x) for x in h.get_bin_left_edges(i)] for i in range(h.ndim)]
-            out["right"] = [[nrs(x) for x in h.get_bin_right_edges(i)] for i in range(h.ndim)]
-            out["centers"] = [[nrs(x) for x in h.get_bin_centers(i)] for i in range(h.ndim)]
-            out["widths"] = [[nrs(x) for x in h.get_bin_widths(i)] for i in range(h.ndim)]
-            mesh = h.get_bin_centers()
-            out["mesh_centers_shape"] = [list(np.asarray(m).shape) for m in mesh]
-            out["mesh_centers00"] = [nrs(np.asarray(m).ravel()[0]) for m in mesh]
-            wm = h.get_bin_widths()
-            out["mesh_widths_last"] = [nrs(np.asarray(m).ravel()[-1]) for m in wm]
-        # additivity under merging: merge_bins(2) along every axis, on a copy
-        out["merged"] = []
-        for a in range(len(pairs)):
-            if len(pairs[a]) < 2:
-                continue
+    # ------------------------------------------------------------------------------------------------ stream "derived"
+    @staticmethod
+    def gen_reads(rng, p_any):
+        if rng.random() >= p_any:
+            return []
+        rd = [w for w in READS if rng.random() < 0.5] or [rng.choice(READS)]
+        rng.shuffle(rd)
+        return [{"what": w, "axis": rng.randint(0, 3)} for w in rd]
+
+    def gen_derived(self, rng):
+        # by family: the 2-D class has the most derivations (the only one with T), the transformed family has seven classes
+        fam = rng.choice(["plain1d", "plain2d", "plain2d", "plainnd", "transformed", "transformed"])
+        klass = {"plain1d": "Histogram1D", "plain2d": "Histogram2D", "plainnd": "HistogramND"}.get(fam) \
+            or rng.choice([c for c in CLASSES if c not in PLAIN])
+        d = CLASSES[klass] or rng.choice([3, 4])
+        plain = klass in PLAIN
+        full = (not plain) and rng.random() < 0.3
+        square = rng.random() < 0.6
+        nmax = 4 if d <= 2 else 3
+        n_sq = rng.randint(2, nmax)
+        adaptive = [None] * d
+        if rng.random() < 0.25:
+            adaptive = [True if rng.random() < 0.6 else None for _ in range(d)]
+            if not any(adaptive):
+                adaptive[rng.randrange(d)] = True
+            full = False
+        tags = ["stream:derived", "class:" + klass]
+        pairs = []
+        for a in range(d):
+            want = n_sq if square else rng.randint(1, nmax)
+            kd = KIND[klass][a] if klass in KIND else "x"
+            if adaptive[a]:
+                w = rng.choice([0.25, 0.5, 1.0, 2.0])
+                mn = 0.0 if kd != "x" and kd != "z" else rng.randint(-8, 8) * 0.25
+                pairs.append([[mn + i * w, mn + (i + 1) * w] for i in range(want)])
+                adaptive[a] = {"min": rs(mn), "w": rs(w)}
+            elif not plain:
+                e = axis_edges(rng, kd, full, n=want)
+                pairs.append([[e[i], e[i + 1]] for i in range(len(e) - 1)])
+            else:
+                for _ in range(6):
+                    p, t = gen1.rising_bins(rng)
+                    if len(p) >= want:
+                        break
+                p = p[:want]
+                if any(p[i][1] != p[i + 1][0] for i in range(len(p) - 1)):
+                    tags.append("gapped")
+                pairs.append(p)
+        shape = [len(p) for p in pairs]
+        size = int(np.prod(shape))
+        if d > 1:
+            tags.append("square" if len(set(shape)) == 1 and shape[0] > 1 else "nonsquare")
+        if any(adaptive):
+            tags.append("adaptive")
+        dt = rng.choice(["int64", "float64", "int16", "int32", "float32"])
+        vals = [rng.randint(0, 9) for _ in range(size)] if dt.startswith("int") else [rng.randint(0, 40) / 4 for _ in range(size)]
+        vals[rng.randrange(size)] = rng.randint(1, 9)
+        # ---- the history: reads on the source, then derivations (with reads in between)
+        nd, is2d = d, klass == "Histogram2D"
+
+        def slice_spec(allow_int, allow_list):
+            r = rng.random()
+            if allow_int and r < 0.25:
+                return ["i", rng.randint(0, 5)]
+            if allow_list and r < 0.5:
+                return ["l", [rng.randint(0, 5) for _ in range(rng.randint(1, 3))]]
+            return ["s", rng.randint(0, 5), rng.randint(0, 5), rng.random() < 0.5]
+
+        ops = []
+        for _ in range(rng.choice([1, 1, 2, 2, 3])):
+            fams = ["same", "rebin"] + (["axes"] if is2d else []) + (["grow"] if any(adaptive) else [])
+            kind = rng.choice(FAMILIES[rng.choice(fams)])
+            if nd == 1 and kind == "projection":
+                kind = "slice"
+            op = {"op": kind}
+            if kind in ("mul", "imul"):
+                op["k"] = rng.choice(["2", "3", "3/2", "1/2", "5/4"])
+                op["int"] = op["k"] in ("2", "3") and rng.random() < 0.5
+            elif kind in ("div", "idiv"):
+                op["k"] = rng.choice(["2", "4", "1/2", "3"])
+            elif kind == "normalize":
+                op["inplace"], op["percent"] = rng.random() < 0.4, rng.random() < 0.3
+            elif kind == "merge":
+                op["amount"], op["axis"], op["inplace"] = rng.randint(2, 3), rng.choice([None, 0, 1, 2, 3]), rng.random() < 0.4
+            elif kind == "projection":
+                op["axes"] = rng.sample(range(4), rng.randint(1, 2))
+                kept = sorted({a % nd for a in op["axes"]})
+                nd = len(kept) - (1 if len(kept) == nd else 0)
+                is2d = plain and nd == 2
+            elif kind == "slice":
+                op["index"] = [slice_spec(nd > 1, nd == 1) for _ in range(4)]
+                ints = [a for a in range(nd) if op["index"][a][0] == "i"]
+                if len(ints) == nd:
+                    op["index"][0] = ["s", rng.randint(0, 5), rng.randint(0, 5), False]
+                    ints = ints[1:]
+                nd -= len(ints)
+                is2d = plain and nd == 2
+            elif kind == "select":
+                op["axis"], op["index"] = rng.randint(0, 3), slice_spec(nd > 1, False)
+                if op["index"][0] == "i":
+                    nd -= 1
+                    is2d = plain and nd == 2
+            elif kind == "fill":
+                # positions relative to the CURRENT bins of each axis: below the first bin, above the last, inside bin j
+                where = ["hi", "in"] if not plain else ["lo", "hi", "in"]
+                op["values"] = [[[rng.choice(where if a == 0 else ["lo", "hi", "in"]), rng.randint(0, 2)] for a in range(4)]
+                                for _ in range(rng.randint(1, 3))]
+                op["n"] = rng.random() < 0.5
+            op["reads"] = self.gen_reads(rng, 0.5)
+            op["observe"] = rng.random() < 0.25
+            ops.append(op)
+        return {"kind": "derived", "class": klass, "axes": [[[rs(l), rs(r)] for l, r in p] for p in pairs], "shape": shape,
+                "adaptive": adaptive, "freq": [rs(v) for v in vals], "dtype": dt, "full": full,
+                "reads": self.gen_reads(rng, 0.85), "ops": ops, "tags": tags}
+
+    def run_derived(self, case):
+        h = build(case)
+        read_errors, steps = [], []
+
+        def reads(hh, rds, where):
+            for rd in rds:
+                try:
+                    do_read(hh, rd)
+                except Exception as e:
+                    read_errors.append(f"{where}: reading {rd['what']} of a {type(hh).__name__}: {type(e).__name__}: {e}"[:200])
+
+        def obs(hh):
             try:
-                m = h.merge_bins(2, axis=a) if len(pairs) > 1 else h.merge_bins(2)
+                return observe(hh)
             except Exception as e:
-                out["merged"].append({"axis": a, "ret": "REFUSED", "why": f"{type(e).__name__}: {e}"[:120]})
+                return {"class": type(hh).__name__, "error": f"{type(e).__name__}: {e}"[:200]}
+
+        reads(h, case["reads"], "source")
+        cur = h
+        for i, op in enumerate(case["ops"]):
+            if op["op"] == "fill":
+                op = dict(op, values=resolve_points(cur, op["values"]))
+            try:
+                r = apply_op(cur, op)
+            except Exception as e:
+                steps.append({"op": op["op"], "ret": "REFUSED", "why": f"{type(e).__name__}: {e}"[:120]})
                 continue
-            mb = [np.asarray(m.bins).reshape(-1, 2)] if len(pairs) == 1 else [np.asarray(b).reshape(-1, 2) for b in m.bins]
-            out["merged"].append({"axis": a, "ret": "ok", "bins": [[nrs(l), nrs(r)] for l, r in mb[a]],
-                                  "sizes": [nrs(x) for x in np.asarray(m.bin_sizes).ravel()],
-                                  "shape": list(np.asarray(m.bin_sizes).shape),
-                                  "total_measure": nrs(m.total_width if len(pairs) == 1 else m.total_size)})
+            if r is None:
+                steps.append({"op": op["op"], "ret": "n/a"})
+                continue
+            cur = r
+            st = {"op": op["op"], "ret": "ok", "class": type(cur).__name__}
+            if op["op"] == "fill":
+                st["points"] = op["values"]
+            reads(cur, op.get("reads", []), f"after op {i} ({op['op']})")
+            if op.get("observe"):
+                st["obs"] = obs(cur)
+            steps.append(st)
+        out = obs(cur)
+        out["steps"] = steps
+        out["read_errors"] = read_errors
+        return {"outs": out, "log": []}
+
+    def run_impl(self, case):
+        if case.get("kind") == "derived":
+            return self.run_derived(case)
+        h = build(case)
+        out = observe(h)
         return {"outs": out, "log": []}
 
     def model_case(self, case, io):
+        if case.get("kind") == "derived":
+            # the model has no derivations: it is asked for the measures of the RESULT's own bins and class
+            o = io["outs"]
+            if "error" in o or o.get("empty"):
+                return None
+            return {"kind": "measure", "class": "HistogramND" if o["class"] == "Histogram2D" else o["class"], "axes": o["bins"]}
         c = {"kind": "measure", "class": "HistogramND" if case["class"] == "Histogram2D" else case["class"], "axes": case["axes"]}
         return c
 
@@ -187,35 +546,57 @@ class C16:
 
     def oracle(self, case, io):
         o = io["outs"]
-        fails = []
+        if case.get("kind") == "derived":
+            fails = [f"read_failed: {e}" for e in o["read_errors"]]
+            todo = [(f"after op {i} ({st['op']})", st["obs"]) for i, st in enumerate(o["steps"]) if "obs" in st] + [("result", o)]
+            for label, ob in todo:
+                if "error" in ob:
+                    fails.append(f"unreadable: [{label}; {ob['class']}] {ob['error']}")
+                    continue
+                if ob.get("empty"):
+                    continue
+                axes = [[(fl(l), fl(r)) for l, r in ax] for ax in ob["bins"]]
+                shape = [len(ax) for ax in axes]
+                if ob["freq_shape"] != shape:
+                    fails.append(f"size_shape: [{label}; {ob['class']}] frequencies have shape {ob['freq_shape']}, the bins {shape}")
+                    continue
+                for f in self.clauses(ob["class"], axes, shape, ob, is_full(ob["class"], axes), approx=True):
+                    sig, _, rest = f.partition(":")
+                    fails.append(f"{sig}: [{label}; {ob['class']} {'x'.join(map(str, shape))}]{rest}")
+            return fails[:6]
         axes = [[(float(Fraction(l)), float(Fraction(r))) for l, r in ax] for ax in case["axes"]]
+        return self.clauses(case["class"], axes, case["shape"], o, case["full"])[:6]
+
+    def clauses(self, cls, axes, shape, o, full, approx=False):
+        """every clause of the property on one observed histogram of class `cls` whose bins are `axes`"""
+        fails = []
         import itertools
         cells = list(itertools.product(*axes))
-        klass = "HistogramND" if case["class"] == "Histogram2D" else case["class"]
+        klass = "HistogramND" if cls == "Histogram2D" else cls
         sizes = [measure_py(klass, c) for c in cells]
-        bs = [float(Fraction(x)) for x in o["bin_sizes"]]
+        bs = [fl(x) for x in o["bin_sizes"]]
         tol = lambda a, b: abs(a - b) <= 1e-11 * max(abs(a), abs(b), 1e-6)
-        if o["shape_sizes"] != case["shape"]:
-            fails.append(f"size_shape: bin_sizes has shape {o['shape_sizes']}, the histogram {case['shape']}")
+        if o["shape_sizes"] != shape:
+            fails.append(f"size_shape: bin_sizes has shape {o['shape_sizes']}, the histogram {shape}")
         elif not all(tol(a, b) for a, b in zip(bs, sizes)):
             k = next(i for i, (a, b) in enumerate(zip(bs, sizes)) if not tol(a, b))
-            fails.append(f"bin_size: {case['class']} cell {cells[k]} has bin_size {bs[k]}, its measure is {sizes[k]}")
-        f = [float(Fraction(x)) for x in o["freq"]]
+            fails.append(f"bin_size: {cls} cell {cells[k]} has bin_size {bs[k]}, its measure is {sizes[k]}")
+        f = [fl(x) for x in o["freq"]]
         for i, (dn, s, fr) in enumerate(zip(o["densities"], bs, f)):
-            if s != 0 and dn is not None and dn not in ("inf", "-inf"):
-                if not tol(float(Fraction(dn)) * s, fr) and abs(float(Fraction(dn)) * s - fr) > 1e-9:
-                    fails.append(f"density: densities*bin_sizes = {float(Fraction(dn)) * s} but frequency is {fr} (cell {i})")
+            if s != 0 and dn is not None and dn not in ("inf", "-inf") and math.isfinite(fr):
+                if not tol(fl(dn) * s, fr) and abs(fl(dn) * s - fr) > 1e-9:
+                    fails.append(f"density: densities*bin_sizes = {fl(dn) * s} but frequency is {fr} (cell {i})")
                     break
         key = "total_width" if len(axes) == 1 else "total_size"
         # total_width is the summed *width* of a 1-D axis (also for the radial class); total_size the summed measure
         covered = sum(r - l for l, r in axes[0]) if len(axes) == 1 else sum(sizes)
-        if not tol(float(Fraction(o[key])), covered) and abs(float(Fraction(o[key])) - covered) > 1e-9:
-            fails.append(f"total_measure: {key} = {float(Fraction(o[key]))}, the covered region measures {covered}")
+        if not tol(fl(o[key]), covered) and abs(fl(o[key]) - covered) > 1e-9:
+            fails.append(f"total_measure: {key} = {fl(o[key])}, the covered region measures {covered}")
         total_measure = sum(bs)
-        if case["full"] and case["class"] in KIND:
+        if full and cls in KIND:
             R = axes[0][-1][1]
             exp = {"PolarHistogram": math.pi * R * R, "RadialHistogram": math.pi * R * R,
-                   "SphericalSurfaceHistogram": 4 * math.pi, "SphericalHistogram": 4 / 3 * math.pi * R ** 3}.get(case["class"])
+                   "SphericalSurfaceHistogram": 4 * math.pi, "SphericalHistogram": 4 / 3 * math.pi * R ** 3}.get(cls)
             if exp is not None and axes[0][0][0] == 0.0 and not tol(total_measure, exp) and abs(total_measure - exp) > 1e-9:
                 fails.append(f"full_range_total: the bin measures sum to {total_measure}, expected {exp}")
         # additivity: merging runs of two adjacent bins along an axis adds their measures (and is refused across a gap)
@@ -233,24 +614,24 @@ class C16:
                              f"(its measure is no longer the sum of the parts)")
                 continue
             want_bins = [(r[0][0], r[-1][1]) for r in runs]
-            got_bins = [(float(Fraction(l)), float(Fraction(r))) for l, r in mg["bins"]]
+            got_bins = [(fl(l), fl(r)) for l, r in mg["bins"]]
             if got_bins != want_bins:
                 fails.append(f"merged_edges: axis {a}: merged bins {got_bins}, expected {want_bins}")
                 continue
             # measure of every merged cell = sum of the measures of its parts
-            shp = list(case["shape"]); arr = np.array(bs).reshape(shp)
+            shp = list(shape); arr = np.array(bs).reshape(shp)
             idx = [slice(None)] * len(shp)
             parts = []
             for i in range(0, shp[a], 2):
                 idx[a] = slice(i, i + 2)
                 parts.append(arr[tuple(idx)].sum(axis=a))
             want = np.stack(parts, axis=a).ravel()
-            got = np.array([float(Fraction(x)) for x in mg["sizes"]])
+            got = np.array([fl(x) for x in mg["sizes"]])
             if got.shape != want.shape or not all(tol(x, y) or abs(x - y) <= 1e-9 for x, y in zip(got, want)):
                 fails.append(f"merge_additive: axis {a}: measures of the merged bins {got.tolist()[:6]} are not the sums of their parts {want.tolist()[:6]}")
-            if len(axes) > 1 or case["class"] != "RadialHistogram":
-                tm = float(Fraction(mg["total_measure"]))
-                tm0 = float(Fraction(o[key]))
+            if len(axes) > 1 or cls != "RadialHistogram":
+                tm = fl(mg["total_measure"])
+                tm0 = fl(o[key])
                 if not tol(tm, tm0) and abs(tm - tm0) > 1e-9:
                     fails.append(f"merge_total_measure: axis {a}: {key} changed from {tm0} to {tm} by merging")
         # edges / centres / widths
@@ -259,37 +640,60 @@ class C16:
         C = [o["centers"]] if len(axes) == 1 else o["centers"]
         W = [o["widths"]] if len(axes) == 1 else o["widths"]
         for a, ax in enumerate(axes):
-            if [float(Fraction(x)) for x in L[a]] != [l for l, _ in ax] or [float(Fraction(x)) for x in Rr[a]] != [r for _, r in ax]:
+            if [fl(x) for x in L[a]] != [l for l, _ in ax] or [fl(x) for x in Rr[a]] != [r for _, r in ax]:
                 fails.append(f"edges: left/right edges of axis {a} differ from bins")
+            if len(C[a]) != len(ax) or len(W[a]) != len(ax):
+                fails.append(f"centre_width: axis {a} has {len(ax)} bins, {len(C[a])} centres and {len(W[a])} widths")
+                continue
             for (l, r), c, w in zip(ax, C[a], W[a]):
-                if float(Fraction(c)) != (l + r) / 2 or float(Fraction(w)) != r - l:
-                    fails.append(f"centre_width: axis {a} bin [{l},{r}] centre {float(Fraction(c))} width {float(Fraction(w))}")
+                if fl(c) != (l + r) / 2 or fl(w) != r - l:
+                    fails.append(f"centre_width: axis {a} bin [{l},{r}] centre {fl(c)} width {fl(w)}")
                     break
         if len(axes) == 1:
-            run, cum = Fraction(0), []
-            for x in o["freq"]:
-                run += Fraction(x); cum.append(run)
-            got = [None if x is None else Fraction(x) for x in o["cumulative"]]
-            if got != cum:
-                fails.append(f"cumulative: cumulative_frequencies = {o['cumulative']}, running sums are {[str(c) for c in cum]}")
-            elif cum and cum[-1] != Fraction(o["total"]):
-                fails.append("cumulative_total: the running sum does not end at total")
-            if float(Fraction(o["min_edge"])) != axes[0][0][0] or float(Fraction(o["max_edge"])) != axes[0][-1][1]:
+            if all(math.isfinite(x) for x in f):
+                run, cum, mag = Fraction(0), [], Fraction(0)
+                for x in o["freq"]:
+                    run += Fraction(x); cum.append(run); mag += abs(Fraction(x))
+                if not approx or "int" in o.get("dtype", ""):
+                    got = [None if x is None else Fraction(x) for x in o["cumulative"]]
+                    if got != cum:
+                        fails.append(f"cumulative: cumulative_frequencies = {o['cumulative']}, running sums are {[str(c) for c in cum]}")
+                    elif cum and cum[-1] != Fraction(o["total"]):
+                        fails.append("cumulative_total: the running sum does not end at total")
+                else:
+                    # contents that went through float division: the running sum is compared up to the rounding of n additions
+                    eps = 2.0 ** -23 if "float32" in o.get("dtype", "") else 2.0 ** -52
+                    bound = 8 * len(cum) * eps * float(mag) + 1e-300
+                    got = [fl(x) for x in o["cumulative"]]
+                    if len(got) != len(cum) or any(not abs(g - float(c)) <= bound for g, c in zip(got, cum)):
+                        fails.append(f"cumulative: cumulative_frequencies = {got}, running sums are {[float(c) for c in cum]}")
+                    elif cum and not abs(float(cum[-1]) - fl(o["total"])) <= bound:
+                        fails.append("cumulative_total: the running sum does not end at total")
+            if fl(o["min_edge"]) != axes[0][0][0] or fl(o["max_edge"]) != axes[0][-1][1]:
                 fails.append("outer_edges: min_edge / max_edge differ from bins")
         else:
-            if any(s != case["shape"] for s in o["mesh_centers_shape"]):
-                fails.append(f"mesh_shape: mesh of centres has shapes {o['mesh_centers_shape']}, expected {case['shape']}")
-            if [float(Fraction(x)) for x in o["mesh_centers00"]] != [(ax[0][0] + ax[0][1]) / 2 for ax in axes]:
+            if any(s != shape for s in o["mesh_centers_shape"]):
+                fails.append(f"mesh_shape: mesh of centres has shapes {o['mesh_centers_shape']}, expected {shape}")
+            if [fl(x) for x in o["mesh_centers00"]] != [(ax[0][0] + ax[0][1]) / 2 for ax in axes]:
                 fails.append("mesh_centres: first mesh entry is not the first bin centre of every axis")
-            if [float(Fraction(x)) for x in o["mesh_widths_last"]] != [ax[-1][1] - ax[-1][0] for ax in axes]:
+            if [fl(x) for x in o["mesh_widths_last"]] != [ax[-1][1] - ax[-1][0] for ax in axes]:
                 fails.append("mesh_widths: last mesh entry is not the last bin width of every axis")
-        return fails[:6]
+        return fails
 
     def nontrivial(self, case, io):
+        if case.get("kind") == "derived":
+            o = io["outs"]
+            return any(st["ret"] == "ok" for st in o["steps"]) and len(o.get("freq", [])) > 1 and any(v != "0" for v in o["freq"])
         return len(case["freq"]) > 1 and any(v != "0" for v in case["freq"])
 
     def tags(self, case, io):
-        return list(case["tags"]) + ["dtype:" + case["dtype"], "full" if case["full"] else "partial"]
+        t = list(case["tags"]) + ["dtype:" + case["dtype"], "full" if case["full"] else "partial"]
+        if case.get("kind") == "derived":
+            o = io["outs"]
+            t.append("reads:warm" if case["reads"] else "reads:none")
+            t += ["op:" + st["op"] + ("" if st["ret"] == "ok" else ":" + st["ret"]) for st in o["steps"]]
+            t.append("result:" + o["class"])
+        return t
 
     def matches_known(self, finding, case):
         return True
@@ -298,7 +702,19 @@ class C16:
         return []
 
     def shrink_candidates(self, case):
-        return []
+        if case.get("kind") != "derived":
+            return
+        ops = case["ops"]
+        for i in range(len(ops)):                       # fewer derivations
+            yield dict(case, ops=ops[:i] + ops[i + 1:])
+        for i in range(len(case["reads"])):             # fewer reads on the source
+            yield dict(case, reads=case["reads"][:i] + case["reads"][i + 1:])
+        for i, op in enumerate(ops):                    # no reads / observations in between
+            if op.get("reads") or op.get("observe"):
+                yield dict(case, ops=ops[:i] + [dict(op, reads=[], observe=False)] + ops[i + 1:])
+        for i, op in enumerate(ops):
+            if op["op"] == "fill" and len(op["values"]) > 1:
+                yield dict(case, ops=ops[:i] + [dict(op, values=op["values"][:-1])] + ops[i + 1:])
 
 
 PROP = C16()
